@@ -458,7 +458,110 @@ pub fn huge_strategy() -> impl Strategy<Value = Workload> {
         })
 }
 
+/// "shrink-keep": waves of { allocate a large block (held memory H1 with it live), shrink it to a few bytes
+/// with realloc and keep it, allocate a block of half the size (held memory H2), free that one }. Whatever
+/// the allocator does with the space the shrink gave up - keep it as a free chunk or hand it back to the
+/// OS - the half-size request fits into it, so H2 <= H1 plus granule slack. (A bound on the whole history
+/// in terms of the peak of live bytes is NOT asserted here: kept crumbs fragment a non-moving heap, which
+/// the first draft of this sub-check reported on the unchanged tree - a false alarm, see DESIGN.md.)
+#[derive(Debug, Clone, Serialize, Deserialize)]
+pub struct ShrinkCase {
+    pub size: usize,
+    pub align_log2: u8,
+    pub tiny: u16,
+    pub waves: u8,
+    pub rounds: u8,
+    /// the large block is obtained with calloc
+    pub zeroed: bool,
+}
+
+pub fn check_shrink(c: &ShrinkCase) -> CaseResult {
+    let mut rep = CaseReport::new();
+    let size = c.size.clamp(256 << 10, 4 << 20);
+    let al = 1usize << c.align_log2.min(12);
+    let tiny = (c.tiny as usize).clamp(1, 4096);
+    let waves = c.waves.clamp(2, 24) as usize;
+    let slack = 3 * (64usize << 10) + 2 * al;
+    sc::verif::install();
+    sc::verif::clear_plan();
+    sc::verif::set_mmap_hint_cycle(vec![]);
+    sc::verif::log_begin();
+    let base = held();
+    let mut a = Dlmalloc::new();
+    let mut result = Ok(());
+    'r: for r in 0..c.rounds.clamp(1, 3) {
+        let mut kept: Vec<*mut u8> = Vec::with_capacity(waves);
+        for w in 0..waves {
+            let p = unsafe { if c.zeroed { a.calloc(size, al) } else { a.malloc(size, al) } };
+            if p.is_null() {
+                result = Err(Failure::new("shrink-keep|malloc returned null without fault injection", format!("round {r}, wave {w}")));
+                break 'r;
+            }
+            unsafe { p.write(w as u8) };
+            let h1 = held().wrapping_sub(base);
+            let q = match no_panic("realloc", || unsafe { a.realloc(p, size, al, tiny) }) {
+                Ok(q) => q,
+                Err(f) => {
+                    result = Err(f);
+                    break 'r;
+                }
+            };
+            if q.is_null() || unsafe { q.read() } != w as u8 || q as usize % al != 0 {
+                result = Err(Failure::new("shrink-keep|realloc result wrong", format!("round {r}, wave {w}: realloc({size} -> {tiny}, align {al}) gave {q:?}")));
+                break 'r;
+            }
+            kept.push(q);
+            let half = unsafe { a.malloc(size / 2, 8) };
+            let h2 = held().wrapping_sub(base);
+            if !half.is_null() {
+                unsafe { a.free(half) };
+            }
+            if h2 > h1 + slack {
+                result = Err(Failure::new(
+                    format!("footprint|space given up by a shrinking realloc is not reused|{}", if al > 16 { "over-aligned block" } else { "ordinary alignment" }),
+                    format!("round {r}, wave {w}: with a block of {size} bytes (align {al}) live the allocator held {h1} bytes; the block was shrunk to {tiny} bytes by realloc, then a block of {} bytes was requested: held memory rose to {h2} (+{} bytes) although the shrink freed {} bytes", size / 2, h2 - h1, size - tiny),
+                ));
+                break 'r;
+            }
+        }
+        for q in kept {
+            unsafe { a.free(q) };
+        }
+    }
+    let log = sc::verif::log_end();
+    let mut maps: BTreeMap<usize, usize> = BTreeMap::new();
+    for c in &log {
+        let err = c.ret > (-4096isize) as usize;
+        if !c.executed || err {
+            continue;
+        }
+        if c.nr == sc::nr::MMAP {
+            maps.insert(c.ret, c.args[1]);
+        } else if c.nr == sc::nr::MUNMAP {
+            ledger_unmap(&mut maps, c.args[0], c.args[1]);
+        } else if c.nr == sc::nr::MREMAP {
+            ledger_unmap(&mut maps, c.args[0], c.args[1]);
+            maps.insert(c.ret, c.args[2]);
+        }
+    }
+    for (&b, &l) in &maps {
+        unsafe { libc::munmap(b as *mut libc::c_void, l) };
+    }
+    result?;
+    rep.nontrivial = true;
+    rep.class_if(al > 16, "over-aligned-blocks-shrunk");
+    rep.class_if(al <= 16, "ordinary-alignment-blocks-shrunk");
+    rep.class_if(c.zeroed, "calloc-then-shrink");
+    Ok(rep)
+}
+
+pub fn shrink_strategy() -> impl Strategy<Value = ShrinkCase> {
+    (prop_oneof![(256usize << 10)..(600 << 10), (600usize << 10)..(4 << 20)], prop_oneof![3 => 0u8..5, 4 => 5u8..13], prop_oneof![1u16..64, 64u16..4096], 2u8..24, 1u8..3, prop::bool::weighted(0.2))
+        .prop_map(|(size, align_log2, tiny, waves, rounds, zeroed)| ShrinkCase { size, align_log2, tiny, waves, rounds, zeroed })
+}
+
 pub fn run(ctx: &Ctx) {
+    ctx.run_prop_opts("shrink-keep", ctx.cases(40, 1500), 24, shrink_strategy(), check_shrink);
     ctx.run_prop_opts("single-thread", ctx.cases(60, 2000), 48, workload_strategy(), |w| check_workload(ctx, w));
     ctx.run_prop_opts("huge-holes", ctx.cases(60, 1500), 24, huge_strategy(), |w| check_workload(ctx, w));
     ctx.extra("max_ratio_peakheld_to_round_total_plus_1MiB_milli", serde_json::json!(MAX_RATIO_MILLI.with(|m| m.get())));
